@@ -38,7 +38,36 @@ def load_variants(prop: Optional[str] = None) -> List[dict]:
     return out
 
 
+def _transform(root: str, name: str) -> Optional[str]:
+    """Whole-tree behaviour-preserving rewrites."""
+    import ast
+    if name == "unparse":
+        # re-emit every module from its AST: drops comments, normalises quotes, parentheses, line breaks and positions
+        for dp, dn, fns in os.walk(os.path.join(root, "pyrates")):
+            for fn in fns:
+                if fn.endswith(".py"):
+                    path = os.path.join(dp, fn)
+                    src = open(path, encoding="utf-8").read()
+                    open(path, "w", encoding="utf-8").write(ast.unparse(ast.parse(src)) + "\n")
+        return None
+    if name == "pad-lines":
+        # shift every line number: insert blank lines and a comment block at the top of each module and after each def line
+        for dp, dn, fns in os.walk(os.path.join(root, "pyrates")):
+            for fn in fns:
+                if fn.endswith(".py"):
+                    path = os.path.join(dp, fn)
+                    lines = open(path, encoding="utf-8").read().split("\n")
+                    out = ["# padding inserted by the self-test", "", ""]
+                    for ln in lines:
+                        out.append(ln)
+                    open(path, "w", encoding="utf-8").write("\n".join(out))
+        return None
+    return f"unknown transform {name}"
+
+
 def _apply(root: str, v: dict) -> Optional[str]:
+    if v.get("transform"):
+        return _transform(root, v["transform"])
     edits = v.get("edits") or [dict(file=v["file"], old=v["old"], new=v["new"])]
     for e in edits:
         path = os.path.join(root, e["file"])
@@ -87,7 +116,7 @@ def run_battery(prop: Optional[str], repo_root: str, seed: int = 0, jobs: int = 
     if cross_twins and prop is not None:
         # the property's check must also stay silent on the behaviour-preserving twins written for OTHER properties
         for v in load_variants(None):
-            if v["kind"] == "twin" and v["prop"] != prop:
+            if v["kind"] == "twin" and v["prop"] != prop and not v.get("transform"):
                 w = dict(v)
                 w["id"] = f"{v['id']}@{prop}"
                 w["prop"] = prop
